@@ -4,7 +4,7 @@ tier=${1:-quick}
 cd "$(dirname "$0")"
 for p in ${PROPS:-C01 C02 C03 C04 C05 C06 C07 C08 C09 C10 C11 C12 C13 C14 C15 C16 C17 C18 C19 C20}; do
   s=$(date +%s)
-  ./bin/vcheck run $p --tier $tier > /tmp/run_${tier}_$p.log 2>&1
+  timeout ${TIMEOUT:-7200} ./bin/vcheck run $p --tier $tier > /tmp/run_${tier}_$p.log 2>&1
   rc=$?
   e=$(date +%s)
   echo "$p exit=$rc $((e-s))s $(grep -c VIOLATION /tmp/run_${tier}_$p.log) viol; $(tail -1 /tmp/run_${tier}_$p.log | cut -c1-150)"
